@@ -103,6 +103,7 @@ PERMS = {
     'ALL': pg.coding.CodePermission.ALL,
     'ASSIGN': pg.coding.CodePermission.ASSIGN,
     'CALL_LOOP': pg.coding.CodePermission.CALL | pg.coding.CodePermission.LOOP,
+    'NONE': pg.coding.CodePermission(0),       # deny everything (a falsy flag value)
 }
 CLASS_NAMES = ['A', 'B', 'C', 'D']
 
@@ -118,7 +119,7 @@ def gen_args(rng, mgr):
         return [rng.choice([True, False, None])]
     if mgr == 'contextual_override':
         names = rng.sample(['u', 'v', 'w'], rng.randint(1, 2))
-        return [{n: rng.randint(0, 9) for n in names},
+        return [{n: rng.choice([0, 0, None, '', False, 1, 2, 5, 9]) for n in names},
                 rng.random() < 0.3, rng.random() < 0.3]
     if mgr in ('str_format', 'repr_format'):
         keys = rng.sample(['compact', 'verbose', 'hide_default_values', 'custom_k'],
@@ -133,7 +134,7 @@ def gen_args(rng, mgr):
                 d[k] = rng.randint(0, 5)
         return [d]
     if mgr == 'coding_context':
-        return [{rng.choice(['f', 'g', 'h']): rng.randint(0, 9)}]
+        return [{rng.choice(['f', 'g', 'h']): rng.choice([0, None, '', 1, 4, 9])}]
     if mgr == 'coding_permission':
         return [rng.choice(sorted(PERMS))]
     if mgr == 'detour':
